@@ -254,6 +254,15 @@ def verify_unit(repo, unit_dir, workdir, canary=True, rlimit=None):
     open(os.path.join(workdir, unit + '.verus.json'), 'w').write(res['stdout'])
     out['cmd'] = res['cmd']
     pr = parse_verus(res, g.fns, text.split('\n'))
+    # rlimit escalation: a query that ran out of resources is re-run once with five times the limit before the run is
+    # called undecided (failing proofs of changed code tend to be the expensive ones)
+    if pr['undecided'] and all('resource limit' in u for u in pr['undecided']):
+        res_hi = run_verus(path, workdir, rlimit=(rlimit or 10) * 5)
+        pr_hi = parse_verus(res_hi, g.fns, text.split('\n'))
+        if not pr_hi['undecided'] or len(pr_hi['undecided']) < len(pr['undecided']):
+            res, pr = res_hi, pr_hi
+            out['cmd'] = res['cmd']
+            out['rlimit_escalated'] = True
     out['failures'] = pr['failures']
     out['undecided'] += pr['undecided']
     out['verified_count'] = pr['verified_count']
